@@ -189,7 +189,7 @@ def run(ctx):
             items.append((declared, scheme, {}))
             meta.append(('declared', 'order_close'))
             scaled = copy.deepcopy(raw)
-            fac = [rng.choice([2.0, 4.0, 3.0, 7.0, 0.5, 1e-3, 123.0]) for _ in raw['cells']]
+            fac = [rng.choice([2.0, 4.0, 3.0, 7.0, 0.5, 1e-3, 123.0, 1e-8, 2.0 ** -30, 1.0 + 2e-8, 1e6]) for _ in raw['cells']]
             scaled['Qf'] = (X * np.array(fac)[:, None]).tolist()
             items.append((scaled, scheme, {}))
             meta.append(('scaled', 'order_close'))
